@@ -1,6 +1,6 @@
 import FstVerif.Proofs.Seek
 import FstVerif.Proofs.EndToEnd
-import FstVerif.Props.C18
+import FstVerif.Proofs.Aut
 /-
 C04 — automaton search. Statements here; proofs in Proofs/Stream.lean and
 Proofs/Seek.lean. The automaton is a universally quantified variable
